@@ -5,7 +5,8 @@ One job of chipper: what `processJob` does to the id array and which jobs it cre
 bisection result (`newId`, `children`), under the conditions the inertial-flow step guarantees (`ResOK`).
 
   mapAt lemmas        ids outside the list are untouched, ids inside (no duplicates, in range) get `f`
-  JobOK n job         the cell's ids are distinct, in range, at least two, and every edge source is a cell id
+  JobOK n job         the cell's ids are distinct, in range, at least two, every edge source is a cell id, and the
+                      edge list is far below usize::MAX
   ResOK job res       left ++ right has no duplicates, lies inside the cell, and contains every edge source
   processJob_spec     size kept; id of x becomes `newId … x (old id)`; next jobs = `children`
   children_ok / children_disj / children_sub
@@ -51,6 +52,7 @@ structure JobOK (n : Nat) (job : Job) : Prop where
   lt    : ∀ x ∈ job.ids, x < n
   two   : 2 ≤ job.ids.length
   src   : ∀ e ∈ job.edges, e.1 ∈ job.ids
+  small : 2 * job.edges.length + 6 < Tbx.Flow.INV     -- the solver's node ids stay below usize::MAX
 
 /-- what chipper needs from a bisection result of `job` -/
 structure ResOK (job : Job) (res : FlowRes) : Prop where
@@ -190,6 +192,10 @@ theorem subJob_ok {n : Nat} {job : Job} {side : List Nat} (hjob : JobOK n job)
     intro e he
     have := (List.mem_filter.mp he).2
     exact List.contains_iff_mem.mp this
+  small := by
+    have h1 : (subJob job side).edges.length ≤ job.edges.length := List.length_filter_le _ _
+    have h2 := hjob.small
+    omega
 
 theorem children_ok {n : Nat} {cfg : Cfg} {job : Job} {res : FlowRes} (hm : 1 ≤ cfg.m)
     (hjob : JobOK n job) (hres : ResOK job res) :
